@@ -119,3 +119,8 @@ def rtl_process(arg):
     rd.debug = False
     rd.noise_floor = 1e6
     return [m[0] for m in rd._process_buffer()]
+
+
+def crc_sequence(msg):
+    from pyModeS import common
+    return (common.crc(msg), common.crc(msg, True), common.crc(msg), common.crc(msg, encode=True))
